@@ -806,9 +806,25 @@ def run_pv_history(ops):
     from midgard.dev import exceptions
     slots, kinds, links = {}, {}, {}
     seen, reqs = [], []
+    res = None
     for o in ops:
         try:
-            if o[0] == "PNew":
+            if o[0] == "PRaw":
+                from midgard.math import transformation
+                p = slots[o[1]]
+                before = p.tobytes()
+                reqs.append(("pv", 3, kinds[o[1]], arr_of(np.asarray(p)), None, None))
+                r = transformation.trs2kepler(p) if kinds[o[1]] == 3 else transformation.kepler2trs(p)
+                res = r
+                seen.append((arr_of(np.asarray(r)), (1 if p.flags.writeable else 0) if p.tobytes() == before else 2))
+            elif o[0] == "PWrite":
+                if isinstance(res, np.ndarray) and res.ndim >= 1:
+                    try:
+                        res[...] = w2f(o[1])
+                    except (ValueError, TypeError):
+                        pass
+                seen.append((NOTHING, 0))
+            elif o[0] == "PNew":
                 _, s_, kind, a, link = o
                 slots[s_] = _pv_make(kind, a, slots.get(link) if kind == 5 else None)
                 kinds[s_] = kind
@@ -836,7 +852,12 @@ def run_pv_history(ops):
                     reqs.append(("pv", what, kinds[s_], arr_of(np.asarray(p)), kinds[links[s_]], arr_of(np.asarray(q))))
                 else:
                     reqs.append(("pv", what, kinds[s_], arr_of(np.asarray(p)), None, None))
-                seen.append((arr_of(_pv_read(p, kinds[s_], what)), 0))
+                if what == 3:
+                    res = p.kepler if kinds[s_] == 3 else p.trs
+                    seen.append((arr_of(np.asarray(res)), 0))
+                else:
+                    res = None
+                    seen.append((arr_of(_pv_read(p, kinds[s_], what)), 0))
         except Exception as e:
             seen.append((((98,), tuple(type(e).__name__.encode()[:40])), -7))
     return seen, reqs
@@ -864,6 +885,11 @@ def pv_scenarios():
         sc.append((name + "-parts", prelude,
                    [("PRead", 0, 1), ("PRead", 0, 2), ("PRead", 0, 3), ("PRead", 0, 4), ("PRead", 2, 3), ("PRead", 2, 4),
                     ("PSet", 0, 0, W6(PV_C)), ("PSet", 0, 1, W6(PV_B)), ("PSet", 0, 2, W6(PV_C)), ("PSet", 2, 0, W6(PV_KB))]))
+        # conversions and raw trs2kepler / kepler2trs: write into the result, convert an equal-valued other object
+        sc.append((name + "-conv",
+                   prelude + [("PNew", 3, 3, mkrows(PV_A, PV_B), None), ("PNew", 4, 4, mkrows(PV_KA, PV_KB), None)],
+                   [("PRead", 0, 3), ("PRead", 3, 3), ("PRaw", 0), ("PRaw", 3), ("PWrite", C_FILL), ("PRead", 2, 3), ("PRead", 4, 3),
+                    ("PRaw", 2), ("PRead", 2, 4), ("PSet", 0, 0, W6(PV_C))]))
         # quantities that depend on `other`: mutate / detach / re-attach it
         sc.append((name + "-other", prelude,
                    [("PRead", 0, 5), ("PRead", 0, 6), ("PRead", 0, 1), ("PSet", 1, 0, W6(PV_A)), ("PSet", 1, 2, W6(PV_C)),
@@ -901,6 +927,10 @@ def pvop_term(pool, o):
         return f"(PNew {o[1]} {o[2]} {pool.ref(o[3])} {emit.opt(None if o[4] is None else str(o[4]))})"
     if o[0] == "PRead":
         return f"(PRead {o[1]} {o[2]})"
+    if o[0] == "PRaw":
+        return f"(PRaw {o[1]})"
+    if o[0] == "PWrite":
+        return f"(PWrite {emit.z(o[1])})"
     if o[0] == "PSet":
         return f"(PSet {o[1]} {o[2]} {emit.lst(emit.z(w) for w in o[3])})"
     return f"(POther {o[1]} {emit.opt(None if o[2] is None else str(o[2]))})"
@@ -995,7 +1025,10 @@ def _run(ctx, srv):
             ctx.violation(dict(kind="pv_history", scenario=name, ops=describe(ops), error=val), what="PosVel history runner failed")
             continue
         pgood.append((name, ops, val[0], val[1]))
-    ref.need([r for g in pgood for r in g[3]])
+    ref.need([r for g in pgood for r in g[3]] +
+             [("pv", 3, 4, r[3], None, None) for g in pgood for r in g[3] if r[1] == 4 and r[2] == 4])
+    ref.need([("pv", 4, 3, ref.get(("pv", 3, 4, r[3], None, None)), None, None)
+              for g in pgood for r in g[3] if r[1] == 4 and r[2] == 4 and ref.get(("pv", 3, 4, r[3], None, None)) is not None])
     pshards = []
     for i in range(0, len(pgood), shard_size):
         pool = Pool()
@@ -1003,9 +1036,18 @@ def _run(ctx, srv):
         for name, ops, seen, reqs in pgood[i:i + shard_size]:
             tab = {}
             for r in reqs:
+                _, what, kind, a, kind2, a2 = r
+                if what == 4 and kind == 4:
+                    # trs2acr of a kepler object = trs2acr of its trs conversion
+                    child = ref.get(("pv", 3, 4, a, None, None))
+                    if child is not None:
+                        tab[(340, (a,))] = child
+                        out = ref.get(("pv", 4, 3, child, None, None))
+                        if out is not None:
+                            tab[(430, (child,))] = out
+                    continue
                 out = ref.get(r)
                 if out is not None:
-                    _, what, kind, a, kind2, a2 = r
                     tab[(what * 100 + kind * 10 + (kind2 or 0), (a,) if a2 is None else (a, a2))] = out
             tt = emit.lst(f"({k[0]}, {emit.lst(pool.ref(x) for x in k[1])}, {pool.ref(v)})" for k, v in tab.items())
             terms.append(f"({tt}, {emit.lst(pvop_term(pool, o) for o in ops)}, "
@@ -1024,14 +1066,20 @@ def _run(ctx, srv):
         rep = dict(kind="pv_history", scenario=name, ops=describe(ops),
                    observed=[[list(a[0]), [w2f(w) if a[0] and a[0][0] == 0 else w for w in a[1]], x] for a, x in seen],
                    verdict=v, legend="kinds 3 TrsPosVel 4 KeplerPosVel 5 TrsPositionDelta 6 TrsPosition; reads 1 pos 2 vel 3 other system "
-                                     "4 trs2acr 5 distance 6 elevation 8 delta.enu; PSet mode 0 row / 1 slice / 2 whole")
+                                     "4 trs2acr 5 distance 6 elevation 8 delta.enu; PRaw = transformation.trs2kepler/kepler2trs(p); "
+                                     "PWrite = result[...] = c; PSet mode 0 row / 1 slice / 2 whole")
         ctx.case((name, repr(ops)), nontrivial=len(body) >= 3)
         if v == 0:
             continue
-        if v == 2:
-            ctx.count("quirk:c08_refpos_mutation_stale")
-            ctx.finding("c08_refpos_mutation_stale",
-                        "PositionDelta conversions (.enu) are not invalidated when the reference position is changed by item assignment", rep)
+        if v in (2, 3, 4):
+            if v in (2, 4):
+                ctx.count("quirk:c08_refpos_mutation_stale")
+                ctx.finding("c08_refpos_mutation_stale",
+                            "PositionDelta conversions (.enu) are not invalidated when the reference position is changed by item assignment", rep)
+            if v in (3, 4):
+                ctx.count("quirk:c08_object_cache_handout")
+                ctx.finding("c08_object_cache_handout",
+                            "p.kepler / p.trs return the _cache entry itself: writing into it changes what p returns later", rep)
         else:
             ctx.violation(rep, what=f"PosVel/PositionDelta observations differ from the uncached reference of the current contents (scenario {name})")
 
